@@ -26,6 +26,15 @@ package main
 // dedup metadata the key of a row is (every tag declared by ANY file of the measurement, time): rows
 // that differ in any such tag must both survive (partitions tag*: the files disagree on arc:tags).
 //
+// TIME is an enumerated dimension too: compaction derives file names from the wall clock (Job.compactFiles,
+// the parent's JobID), and the job processes of one cycle (a killed job, the two halves of its split-and-
+// retry, the sibling batches, the daily job) share database/partition/tier and partly the BatchNumber. The
+// clock of package compaction is virtual in the parent and in every job process; a job process reads
+// "parent's clock at the start of the cycle + (k+1)*gap" for the k-th launch of the cycle, and the gap is
+// part of the scenario (c09Gaps: 1 ms = all within one wall-clock second, 1 s, 1 min, 1 h). Besides the row
+// oracle, every scenario asserts that two different job processes with different inputs never write the
+// same output path (c09Env.distinctOutputs).
+//
 // The thorough tier is the full product (all modes x every call, on every partition). The quick
 // tier is a smaller, completely enumerated space (each job launch costs ~0.5 CPU-seconds and a
 // scenario launches ~5 jobs): the crash-free run of every quick partition, every call for one
@@ -79,9 +88,32 @@ type c09Fault struct {
 	Mode      string `json:"mode"` // kill | fail
 }
 
+// c09Plan is what the parent hands to every job process of one cycle: its own virtual instant when the
+// cycle started, the number of job processes launched before this cycle and the gap between two launches.
+// The k-th job process launched in the cycle (k = 0, 1, ...) runs at NowNS + (k+1)*GapNS.
 type c09Plan struct {
-	NowNS  int64      `json:"now_ns"`
-	Faults []c09Fault `json:"faults"`
+	NowNS   int64      `json:"now_ns"`
+	SeqBase int        `json:"seq_base"`
+	GapNS   int64      `json:"gap_ns"`
+	Faults  []c09Fault `json:"faults"`
+}
+
+// c09Gaps: the enumerated placements of the job processes of one cycle on the virtual time line. Launches are
+// strictly ordered and uniformly spaced, so under gap g ANY two job processes of a cycle (killed job and its
+// retried halves, the two halves, sibling batches, the daily job) differ by a multiple of g:
+//
+//	same-second  1 ms apart: all of them read the same wall-clock second (and minute, hour, day)
+//	""           1 s apart: different second, same minute (the placement every scenario had before)
+//	minute       1 min apart: across a minute boundary, same second-of-minute, same hour
+//	hour         1 h apart: across an hour boundary (later cycles may cross midnight), same minute and second
+var c09Gaps = map[string]time.Duration{"same-second": time.Millisecond, "": time.Second, "minute": time.Minute, "hour": time.Hour}
+var c09TimedGaps = []string{"same-second", "minute", "hour"}
+
+func c09GapName(g string) string {
+	if g == "" {
+		return "next-second"
+	}
+	return g
 }
 
 type c09JobLog struct {
@@ -93,6 +125,7 @@ type c09JobLog struct {
 	Files     []string  `json:"files"`
 	Ops       []vos.Op  `json:"ops"`
 	Dead      bool      `json:"dead"`
+	Instant   int64     `json:"instant_ns"` // what the job process's clock showed when it started
 	Fault     *c09Fault `json:"fault,omitempty"`
 	CPUStart  float64   `json:"cpu_s_at_main,omitempty"` // debug: CPU seconds used before main / by the whole job
 	CPUJob    float64   `json:"cpu_s_total,omitempty"`
@@ -145,9 +178,15 @@ func c09JobProcess() {
 	}
 	seq := c09Claim(planDir, "seq")
 	nth := c09Claim(planDir, "nth."+c09IDKey(cfg.Tier, cfg.PartitionPath, cfg.BatchNumber))
-	// every job process gets its own virtual instant (output names embed the clock)
-	vclock.Install(time.Unix(0, plan.NowNS).Add(time.Duration(seq+1) * time.Second))
-	lg := c09JobLog{Seq: seq, Tier: cfg.Tier, Partition: cfg.PartitionPath, Batch: cfg.BatchNumber, Nth: nth, Files: cfg.Files}
+	// the job process's clock is the parent's virtual clock (its reading at the start of the cycle) plus the
+	// scenario's gap for every launch of the cycle so far: time is an enumerated dimension, not an accident
+	gap := plan.GapNS
+	if gap <= 0 {
+		gap = int64(time.Second)
+	}
+	inst := plan.NowNS + int64(seq-plan.SeqBase+1)*gap
+	vclock.Install(time.Unix(0, inst))
+	lg := c09JobLog{Seq: seq, Tier: cfg.Tier, Partition: cfg.PartitionPath, Batch: cfg.BatchNumber, Nth: nth, Files: cfg.Files, Instant: inst}
 	crash, torn, failK := -1, -1, -1
 	for i := range plan.Faults {
 		f := plan.Faults[i]
@@ -207,6 +246,8 @@ type c09Part struct {
 	SortKeys []string
 	// Quick: how the partition takes part in the quick tier ("" = thorough only):
 	//   full      crash-free + job-kill at every storage mutation of the first hourly job + node-crash and job-error at one point per file step kind
+	//             + the time dimension: crash-free under each of the other launch gaps (c09TimedGaps); job-kill at one point per file step
+	//             kind with all job processes in one second, at three points (see c09BuildScenarios) one minute / one hour apart
 	//   storage   crash-free + job-kill at every storage mutation of the first hourly job (no phase kills)
 	//   kinds     crash-free + job-kill at one fault point per distinct file step kind of the first hourly job
 	//   crashfree crash-free only
@@ -753,6 +794,8 @@ type c09Scn struct {
 	Op         vos.Op   `json:"op"`
 	Job        string   `json:"job"`
 	BatchFiles int      `json:"batch_files"`
+	// Gap: placement of the job processes on the time line (key of c09Gaps; "" = one second apart)
+	Gap string `json:"launch_gap,omitempty"`
 }
 
 type c09Rec struct {
@@ -793,11 +836,13 @@ type c09Env struct {
 	tags   []string
 	faults []c09Fault
 	cfSigs map[string]string // crash-free run: violation kind -> signature
+	gap    time.Duration     // distance between two job-process launches of a cycle on the virtual time line
+	seq0   int               // job processes launched before the current cycle
 }
 
 func (w *c09Worker) newEnv(p *c09Part, fx []c09Fixture) *c09Env {
 	w.caseN++
-	e := &c09Env{w: w, part: p, dir: filepath.Join(w.scratch, fmt.Sprintf("case%d", w.caseN)), tags: p.tagUnion(), cfSigs: map[string]string{}}
+	e := &c09Env{w: w, part: p, dir: filepath.Join(w.scratch, fmt.Sprintf("case%d", w.caseN)), tags: p.tagUnion(), cfSigs: map[string]string{}, gap: time.Second}
 	e.store, e.tmp, e.plan = filepath.Join(e.dir, "store"), filepath.Join(e.dir, "tmp"), filepath.Join(e.dir, "plan")
 	os.RemoveAll(e.dir)
 	os.MkdirAll(e.tmp, 0o700)
@@ -838,8 +883,37 @@ func (e *c09Env) manager() *compaction.Manager {
 		SortKeysConfig: sk, DefaultSortKeys: []string{"time"}, Tiers: tiers, Logger: lg})
 }
 
+// launched counts the job processes started so far in this scenario.
+func (e *c09Env) launched() int {
+	n := 0
+	for ; ; n++ {
+		if _, err := os.Stat(filepath.Join(e.plan, fmt.Sprintf("seq.%d", n))); err != nil {
+			return n
+		}
+	}
+}
+
+// setGap selects the placement of the job processes on the time line for this scenario.
+func (e *c09Env) setGap(name string) {
+	g, ok := c09Gaps[name]
+	if !ok {
+		ev.Unbound("C09: unknown launch gap " + name)
+	}
+	e.gap = g
+}
+
+// elapse moves the parent's clock past the instants its job processes ran at (they "took" one gap each), so
+// that the parent never reads a time earlier than something a finished job has written.
+func (e *c09Env) elapse() {
+	if n := e.launched() - e.seq0; n > 0 {
+		vclock.Jump(time.Duration(n) * e.gap)
+		e.seq0 += n
+	}
+}
+
 func (e *c09Env) writePlan() {
-	b, _ := json.Marshal(c09Plan{NowNS: vclock.Now().UnixNano(), Faults: e.faults})
+	e.seq0 = e.launched()
+	b, _ := json.Marshal(c09Plan{NowNS: vclock.Now().UnixNano(), SeqBase: e.seq0, GapNS: int64(e.gap), Faults: e.faults})
 	tmp := filepath.Join(e.plan, "plan.json.tmp")
 	os.WriteFile(tmp, b, 0o600)
 	os.Rename(tmp, filepath.Join(e.plan, "plan.json"))
@@ -874,6 +948,7 @@ func (e *c09Env) cycle(m *compaction.Manager) {
 	if _, err := m.RunCompactionCycleForTiers(context.Background(), c09Tiers); err != nil {
 		ev.Unbound("C09: RunCompactionCycleForTiers: " + err.Error())
 	}
+	e.elapse()
 }
 
 // firstBatch is what runCycleInternal would hand to compactFilesAdaptively first for the partition.
@@ -923,7 +998,12 @@ func (e *c09Env) judge(s *c09Scn, at string, o *c09Obs, exact bool) {
 			shape += ",tagsets-differ:" + ts
 		}
 		sig := strings.Join([]string{kind, at, s.Mode, s.Job, s.Label, shape}, "|")
-		if s.Mode == "crash-free" {
+		if s.Gap != "" {
+			// a placement other than "one second apart" is part of the counterexample
+			sig += "|launches:" + s.Gap
+			desc += " [job processes of a cycle " + c09GapDesc(s.Gap) + "]"
+		}
+		if s.Mode == "crash-free" && (s.Gap == "" || e.part.cfSigs[kind] == "") {
 			if e.cfSigs[kind] == "" {
 				e.cfSigs[kind] = sig
 			}
@@ -992,10 +1072,100 @@ func (e *c09Env) judge(s *c09Scn, at string, o *c09Obs, exact bool) {
 	}
 }
 
+func c09GapDesc(g string) string {
+	switch g {
+	case "same-second":
+		return "start 1 ms apart, all within the same wall-clock second"
+	case "minute":
+		return "start one minute apart"
+	case "hour":
+		return "start one hour apart"
+	}
+	return "start one second apart"
+}
+
+// c09Outputs: the final paths of the data files a job process uploaded or was about to upload, read from
+// its own call log: the target of every rename onto a *.parquet of the database and every *.parquet.part
+// staging file it created there (a killed job may not have got as far as the rename).
+func c09Outputs(l c09JobLog, store string) []string {
+	pre := filepath.Join(store, c09DB) + "/"
+	set := map[string]bool{}
+	for _, op := range l.Ops {
+		var p string
+		switch op.Kind {
+		case "rename":
+			p = op.Path2
+		case "create", "open-trunc":
+			p = strings.TrimSuffix(op.Path, ".part")
+			if p == op.Path {
+				continue
+			}
+		default:
+			continue
+		}
+		if strings.HasPrefix(p, pre) && strings.HasSuffix(p, ".parquet") && !strings.HasPrefix(filepath.Base(p), ".") {
+			set[p[len(store)+1:]] = true
+		}
+	}
+	var out []string
+	for p := range set {
+		out = append(out, p)
+	}
+	sort.Strings(out)
+	return out
+}
+
+// distinctOutputs: two DIFFERENT job processes of one scenario must never write the same output path unless
+// their inputs are identical (the later upload replaces the earlier one, whose inputs are deleted or about to be).
+func (e *c09Env) distinctOutputs(s *c09Scn) {
+	logs := e.jobLogs()
+	type owner struct {
+		l     c09JobLog
+		files string
+	}
+	by := map[string][]owner{}
+	var paths []string
+	for _, l := range logs {
+		fs := append([]string{}, l.Files...)
+		sort.Strings(fs)
+		for _, p := range c09Outputs(l, e.store) {
+			if by[p] == nil {
+				paths = append(paths, p)
+			}
+			by[p] = append(by[p], owner{l, strings.Join(fs, "\n")})
+			e.w.ctr["job_outputs_checked_for_distinct_paths"]++
+		}
+	}
+	sort.Strings(paths)
+	name := func(l c09JobLog) string {
+		return fmt.Sprintf("%s-b%d/attempt%d(%d files)", l.Tier, l.Batch, l.Nth, len(l.Files))
+	}
+	for _, p := range paths {
+		ow := by[p]
+		for i := range ow {
+			for j := i + 1; j < len(ow); j++ {
+				if ow[i].files == ow[j].files {
+					e.w.ctr["same_output_path_same_inputs"]++
+					continue
+				}
+				e.w.ctr["raw_violations"]++
+				sig := strings.Join([]string{"same-output-path-different-inputs", s.Mode, name(ow[i].l) + " vs " + name(ow[j].l), "launches:" + c09GapName(s.Gap)}, "|")
+				e.w.run.Violate(sig, fmt.Sprintf("two different job processes of one scenario, with different inputs, write the same output path: the later upload replaces the earlier output (job processes of a cycle %s) [partition %s, %s at %s]",
+					c09GapDesc(s.Gap), s.Part, s.Mode, s.Label),
+					map[string]any{"scenario": s, "output_path": p, "job_a": c09Brief([]c09JobLog{ow[i].l}), "inputs_a": ow[i].l.Files, "instant_a": time.Unix(0, ow[i].l.Instant).UTC().Format(time.RFC3339Nano),
+						"job_b": c09Brief([]c09JobLog{ow[j].l}), "inputs_b": ow[j].l.Files, "instant_b": time.Unix(0, ow[j].l.Instant).UTC().Format(time.RFC3339Nano), "jobs": c09Brief(logs)})
+			}
+		}
+	}
+}
+
 func c09Brief(ls []c09JobLog) []string {
 	var out []string
 	for _, l := range ls {
 		s := fmt.Sprintf("#%d %s %s b%d attempt%d files=%d ops=%d", l.Seq, l.Tier, l.Partition, l.Batch, l.Nth, len(l.Files), len(l.Ops))
+		if l.Instant != 0 {
+			s += " clock=" + time.Unix(0, l.Instant).UTC().Format("2006-01-02T15:04:05.000")
+		}
 		if l.Fault != nil {
 			s += fmt.Sprintf(" FAULT(%s@%d dead=%v)", l.Fault.Mode, l.Fault.K, l.Dead)
 		}
@@ -1036,9 +1206,21 @@ func (w *c09Worker) runScenario(p *c09Part, fx []c09Fixture, s *c09Scn) {
 	defer e.close()
 	w.ctr["evals"]++
 	w.ctr["evals_"+s.Mode]++
+	w.ctr["evals_launches_"+c09GapName(s.Gap)]++
+	e.setGap(s.Gap)
 	m := e.manager()
 	var o *c09Obs
 	switch s.Mode {
+	case "crash-free":
+		// no fault: sibling batches and the daily job under the scenario's placement on the time line
+		e.cycle(m)
+		if len(e.jobLogs()) < 2 {
+			w.run.Violate("HARNESS|crash-free-cycle-ran-fewer-than-2-jobs|"+s.Part, "the timed crash-free run launched fewer than two job processes", map[string]any{"scenario": s, "jobs": c09Brief(e.jobLogs())})
+			return
+		}
+		w.ctr["nontrivial"]++
+		o = c09Scan(w.duck, e.store, e.tags)
+		e.judge(s, "after-first-cycle", o, true)
 	case "job-kill", "job-error":
 		e.faults = []c09Fault{s.Fault}
 		e.cycle(m)
@@ -1071,6 +1253,7 @@ func (w *c09Worker) runScenario(p *c09Part, fx []c09Fixture, s *c09Scn) {
 		}
 		e.writePlan()
 		err := m.CompactPartition(context.Background(), cand)
+		e.elapse()
 		logs := e.jobLogs()
 		if len(logs) != 1 || !logs[0].Dead {
 			w.ctr["fault_point_not_reached"]++
@@ -1102,6 +1285,7 @@ func (w *c09Worker) runScenario(p *c09Part, fx []c09Fixture, s *c09Scn) {
 		ev.Unbound("C09: unknown scenario mode " + s.Mode)
 	}
 	e.laterCycles(s, m, o)
+	e.distinctOutputs(s)
 	w.samples.Add(map[string]any{"scenario": s, "jobs": c09Brief(e.jobLogs())})
 }
 
@@ -1231,6 +1415,16 @@ func verifC09() {
 		c1, _, ok1 := run.SpawnShards(min(16, len(parts)))
 		recordWall := time.Since(t0).Seconds()
 		scns := c09BuildScenarios(run, parts, scratch)
+		if os.Getenv("VERIF_C09_PLAN_ONLY") != "" {
+			// debugging aid: print the size of the scenario space and stop (no evidence written)
+			n := map[string]int{}
+			for _, s := range scns {
+				n[s.Mode+" launches:"+c09GapName(s.Gap)]++
+			}
+			fmt.Printf("C09 plan only: %d scenarios %v (crash-free phase %.1fs)\n", len(scns), n, recordWall)
+			os.RemoveAll(scratch)
+			os.Exit(0)
+		}
 		b, _ := json.Marshal(scns)
 		os.WriteFile(filepath.Join(scratch, "scenarios.json"), b, 0o600)
 		os.Setenv("VERIF_C09_PHASE", "enumerate")
@@ -1347,6 +1541,7 @@ func (w *c09Worker) record(p *c09Part) {
 		ev.Unbound(fmt.Sprintf("C09: crash-free cycle over %s ran %d jobs (fixture not selected by the tiers?)", p.Name, len(rec.Jobs)))
 	}
 	e.laterCycles(s, m, o)
+	e.distinctOutputs(s)
 	rec.CFSigs = e.cfSigs
 	w.samples.Add(map[string]any{"partition": p.Name, "files": len(p.Files), "rows": nrows, "crash_free_jobs": c09Brief(rec.Jobs)})
 	for i := range rec.Jobs {
@@ -1492,6 +1687,15 @@ func c09BuildScenarios(run *ev.Run, parts []c09Part, scratch string) []c09Scn {
 				job = "hourly-b1(second-partition)"
 			}
 			kp, kd := keep(t.Ops), kinds(t.Ops)
+			k3 := map[int]bool{}
+			for _, want := range []string{"manifest-rename", "output-rename", "input-delete"} {
+				for k, op := range t.Ops {
+					if c09RecLabel(op) == want {
+						k3[k] = true
+						break
+					}
+				}
+			}
 			for k, op := range t.Ops {
 				if !kp[k] {
 					continue
@@ -1506,6 +1710,28 @@ func c09BuildScenarios(run *ev.Run, parts []c09Part, scratch string) []c09Scn {
 						modes = append(modes, "job-error")
 					}
 				}
+				// the time dimension: every job-kill of a batch that the adaptive retry can split (>= 2*MinFilesPerBatch
+				// files: the killed job, its two halves, the sibling batches and the daily job are all launched in the
+				// same cycle) is ALSO run under each of the other placements of the job processes on the time line.
+				// Quick: plan 'full' only; gap same-second x K (one call per file step kind); gaps minute and hour x K3 = the
+				// first manifest-rename (killed before its manifest exists: nothing to settle), the first output-rename (manifest
+				// and complete staging file, output not final: rolled back, both halves compact) and the first input-delete
+				// (output final: the parent completes the job, the halves find nothing to do).
+				timed := func(s c09Scn, torn bool) {
+					if s.Mode != "job-kill" || s.BatchFiles < 2*compaction.MinFilesPerBatch {
+						return
+					}
+					if run.Quick() && !(p.Quick == "full" && ti == 0 && kd[k] && !torn) {
+						return
+					}
+					for _, g := range c09TimedGaps {
+						if run.Quick() && g != "same-second" && !k3[k] {
+							continue
+						}
+						s.Gap = g
+						out = append(out, s)
+					}
+				}
 				for _, md := range modes {
 					s := base
 					s.Mode = md
@@ -1516,14 +1742,22 @@ func c09BuildScenarios(run *ev.Run, parts []c09Part, scratch string) []c09Scn {
 					if !run.Quick() || quickWants(md, k, lab, false, kd) {
 						out = append(out, s)
 					}
+					timed(s, false)
 					if md != "job-error" && op.Kind == "write" && op.Len > 1 && (lab == "output-part-write" || lab == "manifest-tmp-write") {
 						s.Fault.Torn = op.Len / 2
 						s.Label = lab + "(torn)"
 						if !run.Quick() || quickWants(md, k, lab, true, kd) {
 							out = append(out, s)
 						}
+						timed(s, true)
 					}
 				}
+			}
+		}
+		// crash-free under the other placements (sibling batches and the daily job): quick = plan 'full' only
+		if (!run.Quick() || p.Quick == "full") && len(rec.Jobs) >= 2 {
+			for _, g := range c09TimedGaps {
+				out = append(out, c09Scn{Part: p.Name, Mode: "crash-free", Job: "-", Label: "-", Gap: g})
 			}
 		}
 		if allModes {
@@ -1539,7 +1773,7 @@ func c09BuildScenarios(run *ev.Run, parts []c09Part, scratch string) []c09Scn {
 	if only := os.Getenv("VERIF_C09_ONLY"); only != "" {
 		var f []c09Scn
 		for _, s := range out {
-			if strings.Contains(strings.Join([]string{s.Part, s.Mode, s.Job, s.Label}, "|"), only) {
+			if strings.Contains(strings.Join([]string{s.Part, s.Mode, s.Job, s.Label, "launches:" + c09GapName(s.Gap)}, "|"), only) {
 				f = append(f, s)
 			}
 		}
@@ -1555,9 +1789,15 @@ func c09BuildScenarios(run *ev.Run, parts []c09Part, scratch string) []c09Scn {
 		}
 		return 1
 	}
-	mprio := map[string]int{"job-kill": 0, "node-crash": 1, "job-error": 2, "inproc-error": 3}
+	mprio := map[string]int{"job-kill": 0, "node-crash": 1, "job-error": 2, "inproc-error": 3, "crash-free": 0}
+	// the placement "all job processes of a cycle within one second" first (nothing else covers name collisions between
+	// them), the placements across a minute / an hour boundary last
+	gprio := map[string]int{"same-second": 0, "": 1, "minute": 2, "hour": 2}
 	sort.SliceStable(out, func(i, j int) bool {
 		a, b := out[i], out[j]
+		if gprio[a.Gap] != gprio[b.Gap] {
+			return gprio[a.Gap] < gprio[b.Gap]
+		}
 		if prio(a) != prio(b) {
 			return prio(a) < prio(b)
 		}
@@ -1594,7 +1834,72 @@ func c09Phase(label string) bool {
 
 func c09RecLabel(op vos.Op) string { return c09Label(op, "$STORE", "$TMP") }
 
+// c09Regroup: class-level reporting for the time dimension. A violation seen under a placement other than "one
+// second apart" carries "|launches:<gap>" as 7th field. If the same violation (same first six fields) was ALSO seen
+// one second apart, the placement is not part of the counterexample: it is folded into that signature. Otherwise
+// neither the kill point nor the observation point is part of the class (every kill that makes the parent split
+// the batch shows it): one signature <kind>|timed|<mode>|<job>|<shape>|launches:<gap> per class.
+func c09Regroup(run *ev.Run, ctr map[string]int64) {
+	vs, counts := run.TakeViolations()
+	have := map[string]bool{}
+	for _, v := range vs {
+		have[v.Signature] = true
+	}
+	type grp struct {
+		v       ev.Violation
+		n       int
+		at, lab map[string]bool
+	}
+	groups := map[string]*grp{}
+	var order []string
+	emit := func(v ev.Violation, n int) {
+		for i := 0; i < max(1, n); i++ {
+			run.Violate(v.Signature, v.Desc, v.Replay)
+		}
+	}
+	for _, v := range vs {
+		f := strings.Split(v.Signature, "|")
+		if len(f) == 4 && f[0] == "same-output-path-different-inputs" && f[3] != "launches:next-second" && have[strings.Join(f[:3], "|")+"|launches:next-second"] {
+			// the same pair of jobs collides one second apart too: the placement is not part of the counterexample
+			ctr["violations_under_other_launch_gaps_folded_into_the_one_second_signature"] += int64(counts[v.Signature])
+			continue
+		}
+		if len(f) != 7 || !strings.HasPrefix(f[6], "launches:") {
+			emit(v, counts[v.Signature])
+			continue
+		}
+		if have[strings.Join(f[:6], "|")] {
+			ctr["violations_under_other_launch_gaps_folded_into_the_one_second_signature"] += int64(counts[v.Signature])
+			continue
+		}
+		key := strings.Join([]string{f[0], "timed", f[2], f[3], f[5], f[6]}, "|")
+		g := groups[key]
+		if g == nil {
+			g = &grp{v: v, at: map[string]bool{}, lab: map[string]bool{}}
+			groups[key] = g
+			order = append(order, key)
+		}
+		g.n += counts[v.Signature]
+		g.at[f[1]], g.lab[f[4]] = true, true
+	}
+	keys := func(m map[string]bool) string {
+		var ks []string
+		for k := range m {
+			ks = append(ks, k)
+		}
+		sort.Strings(ks)
+		return strings.Join(ks, ", ")
+	}
+	for _, key := range order {
+		g := groups[key]
+		g.v.Signature = key
+		g.v.Desc += fmt.Sprintf(" [NOT seen with the job processes one second apart; seen %d times, observed %s, fault points: %s]", g.n, keys(g.at), keys(g.lab))
+		emit(g.v, g.n)
+	}
+}
+
 func c09Report(run *ev.Run, parts []c09Part, scns []c09Scn, ctr map[string]int64, samples []any, complete bool) {
+	c09Regroup(run, ctr)
 	run.Coverage["evaluations"] = ctr["evals"]
 	run.Coverage["distinct_nontrivial"] = ctr["nontrivial"]
 	var names []string
@@ -1610,9 +1915,15 @@ func c09Report(run *ev.Run, parts []c09Part, scns []c09Scn, ctr map[string]int64
 	}
 	labels := map[string]int{}
 	modes := map[string]int{}
+	gaps := map[string]int{}
+	timedKill := map[string]int{}
 	for _, s := range scns {
 		labels[s.Label]++
 		modes[s.Mode]++
+		gaps[s.Mode+" x launches:"+c09GapName(s.Gap)]++
+		if s.Mode == "job-kill" && s.BatchFiles >= 2*compaction.MinFilesPerBatch {
+			timedKill[c09GapName(s.Gap)]++
+		}
 	}
 	rule := "one evaluation = one (partition, fault mode, target job, mutating file-system call k of that job [, half-length torn write for the manifest temp file and the uploaded .part]) executed on the real Manager/Job/ManifestManager/LocalBackend/DuckDB with real job subprocesses, followed by later cycles (+2h each) until the listing is stable (<=3), plus one crash-free run per partition (all hourly batches and the daily job, then later cycles; thorough: also an in-process Job.Run). Fault points of a job: E = EVERY mutating call of LocalBackend made by it (manifest mkdir/temp create/write/rename, partition mkdir, .part create/write/rename, each input delete, manifest delete, empty-dir remove; torn variants of the two writes) plus, as phase kills, the calls of package compaction on its temp directory (both mkdirs, the first and the last of the storage-neutral download calls, the cleanup) and NewLocalBackend's mkdir of the root; S = E without the phase kills; K = one call per distinct FILE step kind = the first call of S with each step label that creates, writes, renames or deletes a file (manifest temp create/write/rename, .part create/write/rename, input delete, manifest delete; not the directory mkdir/rmdir calls) plus the last input delete, no torn variants. "
 	if run.Quick() {
@@ -1625,12 +1936,22 @@ func c09Report(run *ev.Run, parts []c09Part, scns []c09Scn, ctr map[string]int64
 	} else {
 		rule += "THOROUGH space: job-kill, node-crash and job-error x E on the first hourly job of every partition, inproc-error x every call of an in-process Job.Run of that batch, and for 5 partitions also the second hourly job and the first daily job as targets (job-kill x E). "
 	}
+	rule += "TIME is an enumerated dimension: the clock of a job process = the parent's virtual clock at the start of the cycle + (k+1)*gap for the k-th job process launched in that cycle (strictly ordered launches, uniformly spaced; afterwards the parent's clock moves past them, later cycles start 2h after that), gap in {1 ms ('same-second': the killed job, both halves of its split-and-retry, the sibling batches and the daily job all read the same wall-clock second), 1 s (every scenario above), 1 min, 1 h (across a minute / an hour boundary, equal lower fields)}: any two job processes of a cycle differ by a multiple of the gap, so a name collision between ANY pair of them that depends on the fields of the clock they share shows under one of the four. "
+	if run.Quick() {
+		rule += "QUICK (plan 'full': first hourly job, a splittable batch of 4): gap same-second x (job-kill x K + the crash-free run); gaps minute and hour x (job-kill x K3 + the crash-free run), K3 = the first manifest-rename (killed before its manifest exists), the first output-rename (manifest and complete staging file, output not final: rolled back, both halves compact) and the first input-delete (output final: the parent completes the job, the halves find nothing to do). "
+	} else {
+		rule += "THOROUGH: the three other gaps x (EVERY job-kill scenario above whose target batch the adaptive retry can split, i.e. >= 4 files, + the crash-free run of every partition). "
+	}
+	rule += "In every scenario the outputs of all job processes (rename targets and *.parquet.part staging files of their call logs) are compared: two different job processes with different inputs must not write the same path (signature family same-output-path-different-inputs|...). "
 	rule += "non-trivial = the job really reached the call and was killed / got EIO there (read from the job process's own log; otherwise the run is flagged); distinct because (partition, mode, job, k, torn) differ. A violation kind that the crash-free run of a partition already shows is reported once, under the crash-free signature (the fault is not part of the minimal counterexample)"
 	run.Coverage["rule"] = rule
 	run.Coverage["samples"] = samples
 	run.Coverage["partitions"] = names
 	run.Coverage["fault_points_by_step"] = labels
 	run.Coverage["scenarios_by_mode"] = modes
+	run.Coverage["scenarios_by_mode_and_launch_gap"] = gaps
+	run.Coverage["job_kill_scenarios_with_splittable_batch_by_launch_gap"] = timedKill
+	run.Coverage["launch_gaps"] = map[string]string{"same-second": "1ms", "next-second": "1s", "minute": "1m", "hour": "1h"}
 	run.Coverage["scenarios"] = len(scns)
 	run.Coverage["exhaustive"] = complete
 	for k, v := range ctr {
@@ -1639,7 +1960,7 @@ func c09Report(run *ev.Run, parts []c09Part, scns []c09Scn, ctr map[string]int64
 		}
 	}
 	run.Assume("crash model: process crash of the job (SIGKILL) at a mutating file-system call: every completed call is visible, nothing later reaches the disk; torn writes for the manifest and the uploaded output (half length); power-loss reordering not modelled (LocalBackend never fsyncs)")
-	run.Assume("the wall clock of package compaction is virtual (overlay): cycles are 2h apart, every job process gets its own instant; name collisions caused by a coarse real clock are out of scope")
+	run.Assume("the wall clock of package compaction is virtual (overlay) in the parent and in every job process; the parent's clock stands still (1 us per reading) while a cycle runs, the job processes of a cycle are placed gap apart after it (gap enumerated: 1 ms, 1 s, 1 min, 1 h; uniform within a scenario, mixed gaps are not enumerated), and a job process's own clock moves 1 us per reading; two sequentially launched job processes never read the IDENTICAL nanosecond (they are at least 1 ms apart) and the clock never steps back")
 	run.Assume("dedup partitions: the survivor of a duplicate (tags,time) key is unspecified and keys that stay uncollapsed (duplicates in different batches or split halves) are NOT judged; only 'at least one and at most as many rows per key as before, every row one of the inputs'; duplicate keys with a NULL tag are excluded from the generator")
 	run.Assume("partitions whose files disagree on arc:tags: the key of a row is (every tag declared by ANY file of the measurement, time), so two input rows that differ in any such tag must both survive; the generator lets a file carry a column that is a tag somewhere only if the file declares it itself (files without any arc:tags carry only the tag every tagged file declares), i.e. rows of a file that does not declare a tag are NULL in it; what compaction should do with a tag column carried as a plain field is not judged")
 	run.Assume("node-crash (job and parent die together) is enumerated for the first job of a partition only; for later jobs of the cycle only the job dies; one fault per scenario; LocalBackend only (no S3/Azure batch delete); OSS mode (no completion manifests, no edge-sync observers)")
